@@ -127,6 +127,9 @@ class BADS:
     https://acerbilab.github.io/pybads/examples.html
     """
 
+    # Optional callable used by external verification harnesses (see optimize()).
+    _verif_probe = None
+
     def __init__(
         self,
         fun: callable,
@@ -1422,6 +1425,18 @@ class BADS:
                     self.optim_state["iter"] = poll_iteration
 
             loop_iter += 1
+
+            # Verification probe (inactive unless PYBADS_VERIF=1 and a probe is installed)
+            if os.environ.get("PYBADS_VERIF") == "1" and BADS._verif_probe is not None:
+                BADS._verif_probe(
+                    self,
+                    loop_iter,
+                    poll_iteration,
+                    do_search_step_flag,
+                    do_poll_step,
+                    is_finished,
+                    msg,
+                )
 
         # End while
 
